@@ -3,6 +3,11 @@ NOTES = ("All claims are level 'other': each check decides structural necessary 
          "Genuine defects found are repaired by 'fix:' commits in /repo or listed in /verif/known_findings.json.")
 PENDING = "static rules for this property are designed (DESIGN.md §3) but not yet implemented in this revision; not claimed until they are"
 CLAIMS = {
+ "C16": {
+  "text": "Decides for every io/fs.File implementation whose ReadDir(n) computes its own window (keyvalue.file, cache.dir): an io.EOF exit exists under n>0 and a cursor/length test that every nil-error path with n>0 passes; every listing slice has bounds entailed by guards on every phi alternative; every paging path stores the cursor and stored values depend on the old cursor or the listing length; no n>0 path returns an unwindowed listing; listing failure is wrapped in *PathError; by-name listings are sorted by construction (io/fs.ReadDir fallback, ReadDirFS implementations return from sorting sources). Exactly-once delivery across pages as a value-level statement and agreement with Stat are NOT decided.",
+  "note": "Trusted: go/types+go/ssa and the rule code; assumes the cursor is never negative (A8; what is stored into it is checked) and stdlib ReadDir sorts (A2).",
+  "technique": "static analysis: control-dependence facts, path enumeration with counters, difference-constraint entailment over phi alternatives, def-use",
+ },
  "C18": {
   "text": "Decides for every Go-level keyvalue.Transaction implementation found by type (mem.transaction, keyvalue.unsafeSerialTransaction), on every path of Get/GetHandler/Set/SetHandler: exactly one result recorded and one id allocated (incl. the aborted path), recorded Op == returned id, store access only on the not-aborted edge, handler error flows into the recorded Err; Commit/Abort release the mutex the constructor left locked on every path and idempotently (sync.Once); Commit returns results in id order; every transaction begun in package keyvalue is committed or aborted on every path. These are the mechanisms behind 'one result per call, in order; store always released'; isolation between concurrent transactions and value-level Get-reflects-Set are NOT decided.",
   "note": "Trusted: go/types+go/ssa and the rule code. Assumes partial correctness (A6) and that names reaching setFileTxn were validated by callers (A7, checked separately under C04).",
